@@ -43,9 +43,14 @@ func coqBytes(b []byte) string {
 	}
 	return fmt.Sprintf("(B %d 0x%s)", len(b), hex.EncodeToString(b))
 }
-func coqN(x uint64) string   { return fmt.Sprintf("%d", x) }
-func coqNat(x int) string    { return fmt.Sprintf("%d%%nat", x) }
-func coqBool(b bool) string  { if b { return "true" }; return "false" }
+func coqN(x uint64) string { return fmt.Sprintf("%d", x) }
+func coqNat(x int) string  { return fmt.Sprintf("%d%%nat", x) }
+func coqBool(b bool) string {
+	if b {
+		return "true"
+	}
+	return "false"
+}
 func coqList(items []string) string {
 	return "[" + strings.Join(items, "; ") + "]"
 }
